@@ -20,6 +20,8 @@ from functools import lru_cache
 import numpy as np
 
 ID = "C03"
+# computational entry points whose results are watched by the engine's retained-result oracle (mc/explore.py)
+RETAIN = [('hydrodiy.stat.metrics', 'crps')]
 RULE = ("every (observation vector, n x m ensemble matrix) over a small integer letter set "
         "(+NaN observations) with n*(m+1) <= K, plus every <=2-deviation variant (tie, "
         "low/high outlier, NaN observation, unsorted member) of a sorted distinct base "
